@@ -114,7 +114,7 @@ def c01_steps(tier, seed):
         miri("registry-miri", "m_registry", ["--shape", seed], 16 if q else 512, timeout=400 if q else 3600),
         native("gate-held-reader", ["w_live", "--mode", "gate", "--trials", 300 if q else 5000, "--seed", seed + 17]),
         native("reg-owner-istep", ["w_reg", "--mode", "owner", "--phase", "istep", "--killers", 0, "--rounds", 6 if q else 120, "--ops", 80, "--seed", seed + 23], timeout=300 if q else 2400),
-        native("owner-drop-after-concurrent-add", ["w_instance", "--scripts", 0, "--concurrent", 40 if q else 600, "--seed", seed + 29]),
+        native("owner-drop-scripts-and-concurrent-add", ["w_instance", "--scripts", 100 if q else 2000, "--concurrent", 40 if q else 600, "--seed", seed + 29], timeout=600 if q else 2400),
     ]
     if not q:
         st += [miri("registry-miri-%d" % sh, "m_registry", ["--shape", seed + sh], 128, timeout=3600) for sh in range(1, 5)]
@@ -464,7 +464,8 @@ PLANS["C15"] = {
 
 
 def c16_steps(tier, seed):
-    return [native("default-grid", ["w_default", "--seed", seed], timeout=600)]
+    q = tier == "quick"
+    return [native("default-grid", ["w_default", "--seed", seed, "--step-stride", 4 if q else 1], timeout=900)]
 
 
 PLANS["C16"] = {
